@@ -43,7 +43,7 @@ pub struct Case {
 
 pub struct C12;
 
-fn mock() -> &'static HttpMock {
+pub(crate) fn mock() -> &'static HttpMock {
     static M: OnceLock<HttpMock> = OnceLock::new();
     M.get_or_init(|| {
         let m = mocks::rt().block_on(HttpMock::start());
@@ -238,6 +238,64 @@ pub fn observed_server_id(server_id: &str, secret: &[u8], key: &[u8]) -> Option<
         }
     }
     None
+}
+
+/// The same through a whole passage instance (child process, layered configuration) whose authentication adapter
+/// is the Mojang adapter with this configured server id: a client logs in over TCP, the instance asks the mock.
+/// Returns (serverId sent, Minecraft's hash of (configured id, the client's shared secret, the key of the
+/// Encryption Request)).
+pub fn observed_server_id_configured(server_id: &str, via_env: bool, plan: &crate::layers::LayerPlan) -> Result<(String, String), String> {
+    use crate::net::NetClient;
+    use crate::refcodec::Pkt;
+    let m = mock();
+    let before = {
+        let mut s = m.state.lock().unwrap();
+        s.next = Some(Reply { status: 204, body: vec![], content_type: "application/json" });
+        s.heads.len()
+    };
+    let port = crate::net::free_port();
+    let cfg = serde_json::json!({
+        "address": format!("127.0.0.1:{port}"),
+        "timeout": 5,
+        "adapters": {
+            "discovery": {"fixed": {"targets": []}},
+            "filter": [],
+            "strategy": "any",
+            "authentication": {"mojang": {"server_id": server_id}},
+        }
+    });
+    let pass = vec![("PASSAGE_VERIF_SESSION_BASE".to_string(), format!("http://127.0.0.1:{}", m.port))];
+    let env_only: Vec<(Vec<&str>, &str, String)> = if via_env { vec![(vec!["adapters", "authentication", "mojang", "server_id"], "ADAPTERS_AUTHENTICATION_MOJANG_SERVERID", server_id.to_string())] } else { vec![] };
+    let inst = crate::layers::start_with(&cfg, plan, &env_only, &pass)?;
+    let mut c = NetClient::connect(inst.port).map_err(|e| e.to_string())?;
+    c.phase = crate::refcodec::Phase::Login;
+    let t = std::time::Duration::from_secs(4);
+    c.send(&Pkt::Handshake { protocol: 770, host: "hash.example.org".into(), port: 25565, next: 2 }).map_err(|e| e.to_string())?;
+    c.send(&Pkt::LoginStart { name: "HashProbe".into(), uuid: uuid::Uuid::from_u128(11) }).map_err(|e| e.to_string())?;
+    let secret16: [u8; 16] = *b"c11-shared-secre";
+    let key_der;
+    loop {
+        match c.recv(t) {
+            Ok(Pkt::LoginCookieRequest { key }) => c.send(&Pkt::LoginCookieResponse { key, payload: None }).map_err(|e| e.to_string())?,
+            Ok(Pkt::EncryptionRequest { public_key, verify_token, .. }) => {
+                let key = crate::refcrypto::RsaPub::from_spki_der(&public_key).ok_or("public key")?;
+                let pad = [0x21u8, 0x43, 0x65];
+                c.send(&Pkt::EncryptionResponse { secret: key.encrypt_pkcs1(&secret16, &pad).unwrap(), token: key.encrypt_pkcs1(&verify_token, &pad).unwrap() }).map_err(|e| e.to_string())?;
+                key_der = public_key;
+                break;
+            }
+            other => return Err(format!("login: {other:?}")),
+        }
+    }
+    // the instance asks the session service, is told "nobody" (204) and ends the connection
+    let _ = c.wait_closed(t);
+    drop(inst);
+    let heads: Vec<Vec<u8>> = m.state.lock().unwrap().heads[before..].to_vec();
+    let head = String::from_utf8_lossy(heads.first().ok_or("no request reached the mock")?).into_owned();
+    let target = head.lines().next().and_then(|l| l.split(' ').nth(1)).ok_or("request line")?.to_string();
+    let query = target.split_once('?').ok_or("query")?.1.to_string();
+    let sent = query.split('&').find_map(|p| p.strip_prefix("serverId=")).and_then(form_decode).and_then(|b| String::from_utf8(b).ok()).ok_or("serverId parameter")?;
+    Ok((sent, crate::refcrypto::mc_hash(server_id, &secret16, &key_der)))
 }
 
 impl Check for C12 {
